@@ -161,6 +161,7 @@ func vfH_dial_logic() {
 	vfTLSPeers, vfReqWriteFail, vfDefaultDialerUsed, vfDefaultDialConn = nil, 0, 0, nil
 	vfPlainSeen = false
 	vfBodyChunk = 0
+	vfBodyConn = nil
 	kr := &vfRand{}
 	rand.Reader = kr
 	in := vfDialIn{scheme: "ws", host: "example.com", path: "/chat", d: &Dialer{}, ctx: &vfCtx{}, code: 101, status: "101 Switching Protocols",
@@ -580,6 +581,7 @@ func vfH_dial_logic() {
 		if !nativeTLS {
 			tc.in = append(tc.in, out...)
 			tc.cut = len(tc.in)
+			vfBodyConn = tc
 		}
 		return out
 	}
